@@ -154,6 +154,9 @@ func (e *ThenExpression) Execute(dataContext IDataContext, memory *WorkingMemory
 		return err
 	}
 	if e.ExpressionAtom != nil {
+		// a call statement is executed for its effect: it runs every time its action list runs, whatever is
+		// remembered from an earlier run (its receiver and arguments keep what is remembered about them)
+		e.ExpressionAtom.Evaluated = false
 		_, err := e.ExpressionAtom.Evaluate(dataContext, memory)
 		if err != nil {
 			AstLog.Errorf("error while executing expression %s. got %s", e.ExpressionAtom.GrlText, err.Error())
